@@ -3,7 +3,7 @@ use crate::common::*;
 use crate::interp::*;
 use crate::c01::{operand_def, gen_operand, KINDS};
 
-pub fn exec(case: &str) -> String {
+pub fn source(case: &str) -> String {
   let f: Vec<&str> = case.split('\t').collect();
   let mut defs = String::new();
   let mut lit = String::from("[");
@@ -19,7 +19,11 @@ pub fn exec(case: &str) -> String {
     }
   }
   lit.push(']');
-  let src = format!("{}{}", defs, lit);
+  format!("{}{}", defs, lit)
+}
+
+pub fn exec(case: &str) -> String {
+  let src = source(case);
   match eval(&src) {
     Ok(v) => canon(&v),
     Err(e) => if e == "hostpanic" || e == "notcode" || e == "parseerr" || e == "parsepanic" { format!("harness:{}:{}", e, hexs(&src)) } else { "err".to_string() },
